@@ -60,7 +60,7 @@ CLAIMED = {
              "and this call's options, registrations never reach other instances or the module defaults. (b) network unchanged: for "
              "every class listed in default_diagnostic_functions (read from the source) either the syntactic frame analysis shows "
              "that nothing reachable from `net` can be stored into, or frame-tracking execution of the real diagnostic() over all paths "
-             "(power flow converging / raising an expected exception at each call) shows every table and column restored on exit.",
+             "(power flow converging / raising an expected exception at each call) shows every table and column restored on exit. The frame also holds when the power flow handed to a diagnostic function fails with an error outside expected_exceptions (diagnose_network swallows it and returns normally); every instance owns its function objects. Bounded native stand-in: diagnose_network on 11 fixed networks, the power flow failing at its k-th call (k = 1..24).",
         note="Assumed: the power flow leaves the element tables unchanged (C08); frames of create_impedance/create_switch/create_ward/"
              "replace_xward_by_ward and read-only topology functions as declared; pandas methods without inplace=True do not mutate. "
              "Not decided: exits by unexpected exceptions, report()."),
@@ -71,7 +71,7 @@ CLAIMED = {
              "_add_dcline_gens (two gens per dcline) and _clean_up (drops exactly the trailing 2*len(dcline) gens / the b2b vscs, for "
              "res=True and res=False). (b) frame-tracking execution of every (net, ppc, ...) function of build_branch/build_bus/"
              "build_gen (list read from source, 4 option sets, all paths): no store into any column / row set / binding of the "
-             "user's element tables, including stores through .values views.",
+             "user's element tables, including stores through .values views. runpp_3ph is under the aux-balance contract (no clean-up without a preceding add on any exit). Bounded native stand-in: runpp_3ph on a net with a dcline, run_contingency_ls2g and a non-observable state estimation that raise after converting user tables.",
         note="Assumed: _add_auxiliary_elements/_clean_up atomic; numpy/scipy functions store into their arguments only through out=; "
              "pandas methods without inplace=True do not mutate; values read from tables are unknown. Not decided: estimation drivers, "
              "_recycled_powerflow / runpp_3ph clean-up, result tables and net._* keys."),
@@ -101,7 +101,7 @@ CLAIMED = {
              "reference generators at that bus (population obligation on the bincount argument); AC networks with one machine: the "
              "real pf_solution_single_slack reports generation = total demand + total branch losses (P and Q, sums over arbitrarily "
              "many buses and branches) under its precondition (no shunt admittance at any bus), and _get_numba_functions establishes "
-             "that precondition whenever it selects the routine.",
+             "that precondition whenever it selects the routine. Bounded native stand-in: energy balance of converged power flows on fixed networks incl. the algorithms gs / fdbx / fdxb with constant-current / constant-impedance loads and bfsw with a phase shifter inside a mesh.",
         note="Assumed: sparse products are functions of their operands; bincount counts occurrences; A-LOOKUP; reals for floats. Not "
              "decided: global balance for AC (sum of nodal balances: Newton convergence, C01), branches with asymmetric series part."),
     "C31": dict(
@@ -111,7 +111,7 @@ CLAIMED = {
              "the real _get_vk_values_from_table returns vk / vkr of that row, whatever other transformers share the table. The merge "
              "and the dict(zip()) lookups are interpreted in a table theory (join = set of key-equal row pairs, map lookup = some row "
              "with the key, so that all rows with the key must agree); the star-point loop is verified through its counter invariant "
-             "(count_index = rank of i in mask), with a universally quantified alignment obligation.",
+             "(count_index = rank of i in mask), with a universally quantified alignment obligation. Bounded native stand-in: power flows of 12 networks against private table rows / directly entered values, short-circuit calculation (3ph max / min, 1ph) against the row values entered directly.",
         note="Assumed: (id_characteristic, step) is a key of the characteristic table and the own row exists (hypotheses of the "
              "property); pandas merge / boolean-mask compression semantics as stated in pyvc.tabletheory. Not decided: spline "
              "characteristics (create_trafo_characteristic_object), tap2 columns."),
@@ -142,7 +142,7 @@ CLAIMED = {
              "default_interp1d) for support points of any number: c(x[k]) == y[k]; the interpolator is built from the stored support "
              "points and the user's keyword arguments with the documented defaults; evaluation leaves the persisted attributes "
              "(x_vals, y_vals, kwargs, interpolator_kind) exactly as the constructor stored them and the cached interpolator is "
-             "excluded from serialisation, so a restored object rebuilds the same curve.",
+             "excluded from serialisation, so a restored object rebuilds the same curve. Bounded native stand-in: 8 random data sets x 6 interpolator variants, from_gradient with rising and falling gradients, equality with the serialised copy after an evaluation, support points replaced after an evaluation.",
         note="Assumed (external contracts): numpy.interp / scipy interp1d / PchipInterpolator pass through their support points and "
              "Pchip / linear interpolation are shape preserving; 10**log10(y) == y. Not decided: the JSON codec (C20 not applicable)."),
     "C13": dict(
@@ -188,7 +188,7 @@ CLAIMED = {
              "BR_R * V_N^2 / S_N is the ohmic value for every net.sn_mva (generic row); lemmas on the real branch_vectors: scaling "
              "series impedances by k and shunt admittances by 1/k (a change of the per-unit base) scales all four two-port "
              "admittances by 1/k; parallel = n gives n times the admittances of one line; a branch without tap changer is symmetric "
-             "under swapping its ends. Table-level re-representations (row permutation, out-of-service elements incl. a line at an out-of-service bus, split loads, fused buses) only as a bounded native stand-in on one fixed network, labelled bounded.",
+             "under swapping its ends. Table-level re-representations (row permutation, out-of-service elements incl. a line at an out-of-service bus, split loads, fused buses) only as a bounded native stand-in on one fixed network, labelled bounded. The bounded native stand-in also relabels the buses (gap, offset) of networks whose elements have auxiliary buses (xward in the distributed slack, non-controllable SSC).",
         note="Assumed: A-LOOKUP (index relabelling / row order is the assumed block layout, not proved), reals for floats. Not decided: "
              "splitting loads (per-bus sums), out-of-service elements, bus fusing through zero-impedance switches, per-unit "
              "conversion of transformers / impedances / wards."),
